@@ -1,0 +1,32 @@
+//go:build verif
+
+package erc20
+
+import (
+	sdk "github.com/cosmos/cosmos-sdk/types"
+	authkeeper "github.com/cosmos/cosmos-sdk/x/auth/keeper"
+
+	"github.com/haqq-network/haqq/x/erc20/keeper"
+	"github.com/haqq-network/haqq/x/erc20/types"
+)
+
+// Ghost compositions for the deductive checker in /verif (compiled only with -tags verif, never called):
+// the round-trip lemmas of C19 are the postconditions of these functions, proved from the contracts of
+// ExportGenesis and InitGenesis alone.
+
+// verifFreshChain stands for "a fresh chain": the module store is empty.
+func verifFreshChain() {}
+
+// verifReimport: export at any height, initialise a fresh chain from the document.
+func verifReimport(ctx sdk.Context, ctx2 sdk.Context, k keeper.Keeper, ak authkeeper.AccountKeeper) {
+	g := ExportGenesis(ctx, k)
+	verifFreshChain()
+	InitGenesis(ctx2, k, ak, *g)
+}
+
+// verifReexport: initialise a fresh chain from a document, export again.
+func verifReexport(ctx sdk.Context, ctx2 sdk.Context, k keeper.Keeper, ak authkeeper.AccountKeeper, g types.GenesisState) *types.GenesisState {
+	verifFreshChain()
+	InitGenesis(ctx, k, ak, g)
+	return ExportGenesis(ctx2, k)
+}
